@@ -97,6 +97,12 @@ func derived(p, svc, prod, region string, rng *rand.Rand) []string {
 	if len(p) > 1 {
 		out = append(out, p[:len(p)-1], p[1:], p[:len(p)/2])
 	}
+	// ids that would match p if an id were ever interpreted as a pattern (regular expression, glob, SQL LIKE)
+	out = append(out, p+"+", p+"*", p+"?", p+".*", "("+p+")", p+"|zzz", "zzz|"+p, "^"+p, p+"$", "["+p+"]", p+"%", p+"_", "%", ".*", "*", p+"{1}", "\\Q"+p+"\\E")
+	if len(p) > 1 {
+		mid := len(p) / 2
+		out = append(out, p[:mid]+"."+p[mid+1:], p[:mid]+"?"+p[mid+1:], p[:mid]+"_"+p[mid+1:], p[:mid]+"["+p[mid:mid+1]+"]"+p[mid+1:], p[:mid]+".*", p[:mid]+"*", p[:mid]+"%")
+	}
 	if i := strings.LastIndex(p, "_"); i > 0 {
 		out = append(out, p[:i], p[i+1:])
 	}
@@ -119,7 +125,7 @@ func swapCase(p string) string {
 
 func TestC06(t *testing.T) {
 	r := ev.Start("C06", "exploration")
-	r.Rule("pairs of distinct partition ids (A,B) generated from the key-id naming scheme (B = A + _service_product[_region], prefixes, suffixes, case, case-fold twins and unicode variants, ids embedding _IK_/_SK_, 255-byte ids, random ids; service/product with and without underscores), each executed through the real decrypt path in both directions on one factory: records produced for A are decrypted through a session for B in cold, warm and shared-IK-cache-already-holding-A's-key states, over a plain metastore, a suffix-advertising wrapper and the real DynamoDB v1/v2 metastores with region suffix over the fake. Every foreign record is presented three times in a row (once more after one of the session's own records). Oracle: err != nil each time. Empty partition id must be refused. Companion cases (same partition across region suffixes, legacy unsuffixed ids) are executed and only counted. Distinct+non-trivial: distinct (service, product, A, B, store, cache state) tuples that reached the partition guard.")
+	r.Rule("pairs of distinct partition ids (A,B) generated from the key-id naming scheme (B = A + _service_product[_region], prefixes, suffixes, case, case-fold twins and unicode variants, ids that would match the other id if ids were interpreted as patterns (regex / glob / LIKE metacharacters), ids embedding _IK_/_SK_, 255-byte ids, random ids; service/product with and without underscores), each executed through the real decrypt path in both directions on one factory: records produced for A are decrypted through a session for B in cold, warm and shared-IK-cache-already-holding-A's-key states, over a plain metastore, a suffix-advertising wrapper and the real DynamoDB v1/v2 metastores with region suffix over the fake. Every foreign record is presented three times in a row (once more after one of the session's own records). Oracle: err != nil each time. Empty partition id must be refused. Companion cases (same partition across region suffixes, legacy unsuffixed ids) are executed and only counted. Distinct+non-trivial: distinct (service, product, A, B, store, cache state) tuples that reached the partition guard.")
 	r.Assume("region suffixes are AWS region names (no underscores)")
 	nBase := ev.Pick(14, 400)
 	rng := rand.New(rand.NewSource(ev.Seed()))
